@@ -67,10 +67,14 @@ impl Comps for (f32, Vec2) {
 fn run<V: Comps>(case: &Value) -> (bool, Vec<Value>) {
     let s = gi(case, "s") as i32;
     let unit = (1u32 << s) as f32;
+    // all reciprocal depths (and with them the pre-divided attributes) times 2^zsc, exactly:
+    // the same surface seen at another absolute distance; undone (exactly) when recording
+    let zsc = case.get("zsc").and_then(|v| v.as_i64()).unwrap_or(0) as i32;
+    let (zmul, zdiv) = (2f32.powi(zsc), 2f64.powi(-zsc));
     let vs: Vec<Vertex<ScreenPt, V>> = (0..3)
         .map(|i| {
             let p = &case["v"][i];
-            let z = case["Z"][i].as_i64().unwrap() as f32 / ZDEN;
+            let z = case["Z"][i].as_i64().unwrap() as f32 / ZDEN * zmul;
             let a: Vec<f32> = case["A"][i].as_array().unwrap().iter().map(|c| c.as_i64().unwrap() as f32).collect();
             vertex(
                 pt3(p[0].as_i64().unwrap() as f32 / unit, p[1].as_i64().unwrap() as f32 / unit, z),
@@ -88,7 +92,7 @@ fn run<V: Comps>(case: &Value) -> (bool, Vec<Value>) {
                 .map(|f| {
                     let cs = f.var.comps();
                     let all = [f.pos.x(), f.pos.y(), f.pos.z()];
-                    let p: Vec<Option<i64>> = vec![sc(all[0], 1024.0), sc(all[1], 1024.0), sc(all[2], 65536.0)];
+                    let p: Vec<Option<i64>> = vec![sc(all[0], 1024.0), sc(all[1], 1024.0), sc(all[2], 65536.0 * zdiv)];
                     let a: Vec<Option<i64>> = cs.iter().map(|c| sc(*c, 1024.0)).collect();
                     if p.iter().chain(a.iter()).all(|x| x.is_some()) {
                         json!([1, p[0], p[1], p[2], a])
@@ -134,7 +138,8 @@ fn emit(out: &mut dyn Write, key: String, s: i64, v: [[i64; 2]; 3], rng: &mut Rn
     // reciprocal depths: equal (affine case) or a w ratio up to 10:1
     let z: Vec<i64> = if rng.chance(1, 4) { vec![20, 20, 20] } else { (0..3).map(|_| *rng.pick(&ZS)).collect() };
     let a = attrs(rng, n, 32);
-    writeln!(out, "{}", json!({"k": key, "s": s, "v": v, "Z": z, "A": a, "ty": ty, "c05": small as u8})).unwrap();
+    let zsc = [0i64, 0, -14, 0, -20, 6][(tyi / TYS.len()) % 6];
+    writeln!(out, "{}", json!({"k": key, "s": s, "v": v, "Z": z, "A": a, "ty": ty, "c05": small as u8, "zsc": zsc})).unwrap();
 }
 
 pub fn gen(args: &Args, out: &mut dyn Write) {
